@@ -2,5 +2,6 @@ import Rspirv.Props.C01
 import Rspirv.Props.C01Words
 import Rspirv.Props.RoundTrip
 import Rspirv.Props.C01End
+import Rspirv.Props.C01Layout
 /-! C01: module level (`Props/C01.lean`), instruction level (`Props/C01Words.lean`) and reload (`Props/Reload.lean`,
-`Props/RoundTrip.lean`) together -/
+`Props/RoundTrip.lean`, `Props/C01Layout.lean`) together -/
